@@ -381,6 +381,44 @@ func dictionaryFonts() []*Font {
 			out = append(out, f)
 		}
 	}
+	// E2: every subset of the eight optional Private entries present (each with a
+	// non-default value), and OtherBlues next to an empty BlueValues array
+	for mask := 0; mask < 256; mask++ {
+		var p Private
+		var names []string
+		for bit, n := range []string{"BlueValues", "OtherBlues", "BlueScale", "BlueShift", "BlueFuzz", "StdHW", "StdVW", "ForceBold"} {
+			if mask&(1<<bit) == 0 {
+				continue
+			}
+			names = append(names, n)
+			switch bit {
+			case 0:
+				p.BlueValues = []int{-12, 0, 480, 492}
+			case 1:
+				p.OtherBlues = []int{-250, -240}
+			case 2:
+				p.BlueScale = fp(0.045)
+			case 3:
+				p.BlueShift = ip(9)
+			case 4:
+				p.BlueFuzz = ip(3)
+			case 5:
+				p.StdHW = 44
+			case 6:
+				p.StdVW = 91
+			case 7:
+				p.ForceBold = bp(true)
+			}
+		}
+		f := base(fmt.Sprintf("E:private entries present %v", names))
+		f.Private = p
+		out = append(out, f)
+	}
+	{
+		f := base("E:private OtherBlues next to an empty BlueValues array")
+		f.Private = Private{BlueValues: []int{}, OtherBlues: []int{-250, -240}}
+		out = append(out, f)
+	}
 	// G: encodings
 	{
 		f := base("G:custom A at 65 only, B unencoded").custom()
